@@ -136,6 +136,30 @@ def index_sweep(acc, ctx):
     acc.exhaustive.append("list sizes 0..4 x index in {-2^63,-len-1,-len,-1,0,1,2,len-1,len,len+1,2^63-1} x int/uint index x 3 element types")
 
 
+def computed_index_sweep(acc, ctx):
+    """The index is the RESULT of an operator (every arithmetic operator and unary minus over bound ints, negative / in range / past the
+    end): an index value is whatever the operators hand on, not only what literals and bindings produce."""
+    k = 0
+    V = lambda name: Node("var", "int", name)
+    forms = [
+        ("%", lambda: Node("bin", "int", "%", V("i"), V("j"))), ("-", lambda: Node("bin", "int", "-", V("i"), V("j"))), ("+", lambda: Node("bin", "int", "+", V("i"), V("j"))),
+        ("*", lambda: Node("bin", "int", "*", V("i"), V("j"))), ("/", lambda: Node("bin", "int", "/", V("i"), V("j"))), ("neg", lambda: Node("un", "int", "-", V("i"))),
+        ("%+0", lambda: Node("bin", "int", "+", Node("bin", "int", "%", V("i"), V("j")), Node("lit", "int", ("int", 0)))),
+        ("cond", lambda: Node("cond", "int", Node("bin", "bool", "<", V("i"), V("j")), V("i"), V("j"))),
+    ]
+    lst = ("list", tuple(("int", 10 + i) for i in range(3)))
+    for name, mk in forms:
+        for i in range(-7, 8):
+            for j in (-3, -1, 1, 2, 3):
+                k += 1
+                if not ctx.mine(k):
+                    continue
+                acc.hook("computed-index")
+                node = Node("index", "int", Node("var", ("list", "int"), "l"), mk())
+                check_program(acc, node, {"l": lst, "i": ("int", i), "j": ("int", j)}, "index-computed", cached=True)
+    acc.exhaustive.append("index computed by each of % - + * / unary-minus ?: over i in -7..7, j in {-3,-1,1,2,3}, list of 3")
+
+
 def key_sweep(acc, ctx):
     k = 0
     pools = {
@@ -498,6 +522,7 @@ def run(ctx):
     size_probes(acc, ctx)
     macro_error_positions(acc, ctx)
     index_sweep(acc, ctx)
+    computed_index_sweep(acc, ctx)
     key_sweep(acc, ctx)
     regex_checks(acc, ctx, ctx.scale(2400, 80000))
     law_checks(acc, ctx, ctx.scale(4000, 160000))
